@@ -16,11 +16,13 @@ class SchedulerError(Exception):
 
 
 class Run(object):
-    def __init__(self, nworkers, schedule, filename_suffix, func_names, timeout=60):
+    def __init__(self, nworkers, schedule, where, func_names=None, timeout=60):
+        """where: {filename suffix: iterable of function names} (or a suffix plus func_names)"""
         self.n = nworkers
         self.schedule = list(schedule)
-        self.suffix = filename_suffix
-        self.funcs = set(func_names)
+        if not isinstance(where, dict):
+            where = {where: func_names}
+        self.where = dict((k, frozenset(v)) for k, v in where.items())
         self.timeout = timeout
         self.q = queue.Queue()
         self.go = [threading.Event() for _ in range(nworkers)]
@@ -41,8 +43,9 @@ class Run(object):
         def tracer(frame, event, arg):
             if event == 'call':
                 co = frame.f_code
-                if co.co_filename.endswith(self.suffix) and co.co_name in self.funcs:
-                    return local
+                for suffix, funcs in self.where.items():
+                    if co.co_filename.endswith(suffix) and co.co_name in funcs:
+                        return local
             return None
         return tracer
 
